@@ -81,9 +81,9 @@ def simulate(n: int, seed: int, *, maxlen=5, minlen=None, nlabels=3, se=2, wide=
     behs = []
     for mm in re.finditer(r'<<\s*"BEH"', out):
         v, _ = tlaval.parse_prefix(out, mm.start())
-        _, vals, labs, labs2, cuts, cfgv, groups, plan, result, pref, sizes, codes, engine = v
+        _, vals, labs, labs2, cuts, cfgv, groups, plan, result, pref, sizes, codes, engine, ncoh = v
         behs.append({"vals": vals, "labs": labs, "labs2": labs2, "nlabels2": nlabels2, "cuts": cuts, "cfg": cfgv, "groups": groups, "plan": plan, "result": result,
-                     "pref": pref, "engine": engine, "sizes": list(sizes), "codes": list(codes), "nlabels": nlabels, "se": se})
+                     "pref": pref, "ncohorts": ncoh, "engine": engine, "sizes": list(sizes), "codes": list(codes), "nlabels": nlabels, "se": se})
     return behs, info
 
 
@@ -173,6 +173,10 @@ def run_compose_case(beh: dict) -> dict:
         ev = plan_ev[-1]
         if ev.get("engine") != beh.get("engine") and "codes2" not in case:
             drift.append(f"compose: engine {ev.get('engine')} where the spec's ChooseEngine gives {beh.get('engine')} case={json.dumps(case)}")
+        consulted = case["chunks"] is not None and ((case["method"] is None and not case["by_dask"]) or case["method"] == "cohorts")
+        if consulted and ev.get("preferred") is not None and (ev["preferred"] != beh["pref"] or ev["ncohorts"] != beh["ncohorts"]) \
+                and not (case["method"] is None and case["reindex"] is True):      # the preference is overridden for reindex=True
+            drift.append(f"compose: planner says {ev['preferred']} with {ev['ncohorts']} cohorts where Cohorts.tla says {beh['pref']} with {beh['ncohorts']} case={json.dumps(case)}")
         if ev["method"] != spec_plan["method"]:
             drift.append(f"compose: strategy {ev['method']} where the spec resolves {spec_plan['method']} (planner prefers {ev.get('preferred')}, spec {beh['pref']}) case={json.dumps(case)}")
         elif bool(ev["reindex_blockwise"]) != bool(spec_plan["rb"]) and len(beh["groups"]) > 0:
